@@ -204,7 +204,12 @@ Section Ops.
         | None => (r, None)
         | Some _ =>
             match gguf_parts lfl r d parts with
-            | (r1, Some ls) => if fail then (r1, None) else let (r2, ls') := add_detected r1 ls det in (r2, Some ls')
+            | (r1, Some ls) =>
+                (* repaired (fixes/C04-create-empty-gguf.patch): a blob in which no GGUF could be decoded at all (it ends
+                   inside the first header: ggml.Decode answers io.EOF, the loop just stops) is an error, not a model
+                   without layers *)
+                if fail || match parts with [] => true | _ => false end then (r1, None)
+                else let (r2, ls') := add_detected r1 ls det in (r2, Some ls')
             | (r1, None) => (r1, None)
             end
         end
